@@ -282,11 +282,32 @@ func (c *Ctx) growRules() {
 		return
 	}
 	var mu *ssa.MapUpdate
+	grow := fn
+	var reindexSite ssa.CallInstruction // the call of the helper that holds the re-index loop, when there is one
 	for _, b := range fn.Blocks {
 		for _, in := range b.Instrs {
 			if x, ok := in.(*ssa.MapUpdate); ok && isIndexMap(x.Map) {
 				mu = x
 			}
+		}
+	}
+	if mu == nil {
+		// the re-index loop in a private helper of the queue that grow calls after re-basing
+		for _, call := range ir.Calls(fn) {
+			h := call.Common().StaticCallee()
+			if h == nil || h == fn || h.Blocks == nil || recvNamed(h) != "Ackqueue" {
+				continue
+			}
+			for _, b := range h.Blocks {
+				for _, in := range b.Instrs {
+					if x, ok := in.(*ssa.MapUpdate); ok && isIndexMap(x.Map) {
+						mu, reindexSite = x, call
+					}
+				}
+			}
+		}
+		if mu != nil {
+			fn = mu.Parent()
 		}
 	}
 	if mu == nil {
@@ -386,10 +407,17 @@ func (c *Ctx) growRules() {
 		}
 		// after re-basing: head = 0 and tail = count are stored before the loop
 		h0, tc := false, false
-		for _, b := range fn.Blocks {
+		for _, b := range grow.Blocks {
 			for _, in := range b.Instrs {
 				st, ok := in.(*ssa.Store)
-				if !ok || !st.Block().Dominates(l.Header) {
+				if !ok {
+					continue
+				}
+				if reindexSite != nil {
+					if !ir.Before(st, reindexSite) {
+						continue
+					}
+				} else if !st.Block().Dominates(l.Header) {
 					continue
 				}
 				p := ir.PathOf(st.Addr)
@@ -408,7 +436,7 @@ func (c *Ctx) growRules() {
 		}
 	}
 	c.R.Check(len(bad) == 0, ruleT5, "grow:reindexes-all-live-entries", c.P.InstrPos(mu), "for i in [0, tail): emap[ring[i].Pktid] = i after head=0, tail=count", joinStr(bad, "; "))
-	c.growUnrollOrder(fn)
+	c.growUnrollOrder(grow)
 }
 
 // growUnrollOrder: the old ring is unrolled oldest-first: the segment that starts
@@ -422,7 +450,14 @@ func (c *Ctx) growUnrollOrder(fn *ssa.Function) {
 		whole           bool
 	}
 	var cps []cp
-	for _, b := range fn.Blocks {
+	// grow itself and the private helpers of the queue it copies through (`aq.copyTo(newring)`)
+	blocks := append([]*ssa.BasicBlock(nil), fn.Blocks...)
+	for _, call := range ir.Calls(fn) {
+		if h := call.Common().StaticCallee(); h != nil && h != fn && h.Blocks != nil && recvNamed(h) == "Ackqueue" && h.Object() != nil && !h.Object().Exported() {
+			blocks = append(blocks, h.Blocks...)
+		}
+	}
+	for _, b := range blocks {
 		for _, in := range b.Instrs {
 			call, ok := in.(*ssa.Call)
 			if !ok {
@@ -459,7 +494,7 @@ func (c *Ctx) growUnrollOrder(fn *ssa.Function) {
 	}
 	if len(cps) == 0 {
 		// element-loop form: new[i] = ring[(head+i) & mask] (or % size) for the induction variable i
-		for _, b := range fn.Blocks {
+		for _, b := range blocks {
 			for _, in := range b.Instrs {
 				st, ok := in.(*ssa.Store)
 				if !ok {
